@@ -38,9 +38,10 @@ FILLS_QUICK = [0x00, 0x06, 0x07, 0x0c, 0x20, 0x22, 0x5d, 0x7d, 0xff]
 FILLS_ALL = [0x00, 0xbe, 0x06, 0x07, 0x0c, 0x20, 0x22, 0x5c, 0x5d, 0x7d, 0x2c, 0x3a, 0x31, 0xff]
 
 PROPS = {}
-PROPS["_libs"] = {"number_harness.cpp": "-lgmp", "toa_harness.cpp": "-lgmp"}
+PROPS["_libs"] = {"number_harness.cpp": "-lgmp", "toa_harness.cpp": "-lgmp", "../fuzz/fuzz_number.cpp": "-lgmp"}
 PROPS["_deps"] = {"../fuzz/fuzz_parse.cpp": ["parse_harness.cpp"], "../fuzz/fuzz_ondemand.cpp": ["ondemand_harness.cpp"],
-                  "../fuzz/fuzz_merge.cpp": ["lazy_harness.cpp", "schema_harness.cpp"]}
+                  "../fuzz/fuzz_merge.cpp": ["lazy_harness.cpp", "schema_harness.cpp"],
+                  "../fuzz/fuzz_number.cpp": ["number_harness.cpp"], "../fuzz/fuzz_string.cpp": ["string_harness.cpp"]}
 FUZZ_ENV = {"ASAN_OPTIONS": "abort_on_error=1:detect_leaks=0:allocator_may_return_null=1:quarantine_size_mb=8"}
 
 
@@ -555,5 +556,5 @@ PROPS["C15"] = dict(
 
 # ------------------------------------------------------------------------------------------------ libFuzzer runs (thorough tier)
 for _p, _s in [("C01", "fuzz_parse.cpp"), ("C02", "fuzz_parse.cpp"), ("C03", "fuzz_parse.cpp"), ("C10", "fuzz_ondemand.cpp"),
-               ("C11", "fuzz_ondemand.cpp"), ("C19", "fuzz_merge.cpp"), ("C20", "fuzz_merge.cpp")]:
+               ("C11", "fuzz_ondemand.cpp"), ("C19", "fuzz_merge.cpp"), ("C20", "fuzz_merge.cpp"), ("C04", "fuzz_number.cpp"), ("C05", "fuzz_string.cpp")]:
     PROPS[_p]["runs"].append(fuzz_run(_p, _s))
